@@ -94,6 +94,7 @@ fn gen(seed: u64, idx: u64, _tier: Tier) -> Plan {
     plan.params.insert("point".into(), k as i64);
     let mut s = ServerSpec::basic(Mode::F, "a32049da0ffde0ded92ce10a0230d35fe615ec8461c14986baa63fe3b3bac3db");
     s.source = source.clone();
+    file_layout(&mut rng, &mut s);
     // background values for the other keys vary per repetition
     s.workers = *rng.pick(&[1i64, 2, 3]);
     s.workers_written = true;
